@@ -488,5 +488,5 @@ RunOK(r) == RunWhy(r) = {}
 
 \* the Model's own history must satisfy the history Judge (guards the Judge against over-strictness)
 ModelRun == [cfg |-> cfg, H |-> hist, reads |-> readsAfterStop, rem |-> 3, outcome |-> "ok", resume |-> << >>]
-HistInv == RunOK(ModelRun)
+HistInv == (cpc = "idle" /\ Len(hist) > 0 /\ hist[Len(hist)].op # "call") => RunOK(ModelRun)
 =============================================================================
